@@ -299,15 +299,15 @@ theorem removable_not_kept {G : Graph} {Q : Query} {keep : List Nat} {t : Nat}
   exact h.1.2
 
 theorem removeSrcs_not_kept {G : Graph} {Q : Query} {keep : List Nat} {f : Nat} (h : f ∈ removeSrcs G Q keep) :
-    ∀ k ∈ keep, f ∉ G.srcs k := by
+    ∀ k ∈ keep, f ∉ G.srcs k ∧ f ∉ G.data k := by
   unfold removeSrcs at h
   simp only [List.mem_flatMap, List.mem_filter, Bool.not_eq_true', List.contains_eq_mem,
     decide_eq_false_iff_not] at h
   obtain ⟨t, _, _, hnk⟩ := h
-  intro k hk hf
-  apply hnk
-  unfold keepSrcs
-  exact List.mem_flatMap.mpr ⟨k, hk, hf⟩
+  intro k hk
+  constructor <;> intro hf <;> apply hnk <;> unfold keepSrcs
+  · exact List.mem_flatMap.mpr ⟨k, hk, List.mem_append_left _ hf⟩
+  · exact List.mem_flatMap.mpr ⟨k, hk, List.mem_append_right _ hf⟩
 
 /-! ### fuel: the recursion bound of `addTarget` is never reached -/
 
